@@ -418,14 +418,20 @@ func convTypeToTarget(source interface{}, target reflect.Type) (interface{}, err
 				return rv.Convert(target).Interface(), nil
 			}
 		}
+		// the declared type may be a named one (type ID int64, type Code string): convert to it, not to its kind
 		if isBasicNumberKind(target.Kind()) {
-			return convToBasicNumber(source, target)
+			n, err := convToBasicNumber(source, target)
+			if err != nil {
+				return nil, err
+			}
+			return reflect.ValueOf(n).Convert(target).Interface(), nil
 		}
 		if target.Kind() == reflect.String {
-			if IsNull(source) {
-				return "", nil
+			s := ""
+			if !IsNull(source) {
+				s = fmt.Sprintf("%v", source)
 			}
-			return fmt.Sprintf("%v", source), nil
+			return reflect.ValueOf(s).Convert(target).Interface(), nil
 		}
 		return nil, fmt.Errorf("convTypeToTarget %T not conv to %v", source, target)
 	}
